@@ -8,6 +8,7 @@ import (
 	"encoding/json"
 	"fmt"
 	"os"
+	"runtime"
 	"strconv"
 	"strings"
 	"sync"
@@ -101,6 +102,9 @@ func Str(n int) string {
 
 func Assume(c bool) {
 	if !c {
+		if schedOn {
+			abortSchedule()
+		}
 		fmt.Println("ZV: ASSUME-FALSE (replay does not satisfy an assumption)")
 		os.Exit(4)
 	}
@@ -108,6 +112,10 @@ func Assume(c bool) {
 
 func Assert(c bool, id string) {
 	if !c {
+		if schedOn && schedTarget != "" && id != schedTarget {
+			otherFails[id] = true
+			abortSchedule()
+		}
 		fmt.Printf("ZV: ASSERT-FAIL %s\n", id)
 		os.Exit(3)
 	}
@@ -116,6 +124,10 @@ func Assert(c bool, id string) {
 // AssertUnless asserts c; known marks the region of a recorded finding.
 func AssertUnless(known, c bool, id string) {
 	if !c {
+		if schedOn && schedTarget != "" && id != schedTarget {
+			otherFails[id] = true
+			abortSchedule()
+		}
 		fmt.Printf("ZV: ASSERT-FAIL %s known=%v\n", id, known)
 		os.Exit(3)
 	}
@@ -125,15 +137,15 @@ func Choice(n int) int {
 	mu.Lock()
 	defer mu.Unlock()
 	load()
-	if n <= 1 {
-		return 0
-	}
 	if ci >= len(rp.Choices) {
 		ci++
 		return 0
 	}
 	c := rp.Choices[ci]
 	ci++
+	if c >= n {
+		c = 0
+	}
 	return c
 }
 
@@ -273,6 +285,7 @@ func SameArray(a, b []int) bool {
 func MapOrderMode(k int) {}
 func Note(s string)      {}
 func Share(p any)        {}
+func ShareNoRaceCheck(p any) {}
 func Yield()             {}
 func LocksHeld() int     { return 0 }
 
@@ -296,18 +309,465 @@ func Quiesce() {
 	}
 }
 
+// CallSpan is one call of a concurrent program: its thread and its begin/end stamps.
+type CallSpan struct {
+	Thread     int
+	Begin, End int
+}
+
+// Orders returns every permutation of the calls that respects program order (calls of one thread
+// stay in index order) and real-time order (a call that ended before another began comes first).
+// Everything here is concrete on each explored path.
+func Orders(calls []CallSpan) [][]int {
+	n := len(calls)
+	var out [][]int
+	used := make([]bool, n)
+	cur := make([]int, 0, n)
+	var rec func()
+	rec = func() {
+		if len(cur) == n {
+			out = append(out, append([]int(nil), cur...))
+			return
+		}
+		for i := 0; i < n; i++ {
+			if used[i] {
+				continue
+			}
+			ok := true
+			for j := 0; j < n; j++ {
+				if used[j] || j == i {
+					continue
+				}
+				// j is still unplaced: it must not be required to precede i
+				if calls[j].Thread == calls[i].Thread && j < i {
+					ok = false
+				}
+				if calls[j].End < calls[i].Begin {
+					ok = false
+				}
+			}
+			if !ok {
+				continue
+			}
+			used[i] = true
+			cur = append(cur, i)
+			rec()
+			cur = cur[:len(cur)-1]
+			used[i] = false
+		}
+	}
+	rec()
+	return out
+}
+
+// ---- concurrent-program driver (shape S3), ordinary Go executed symbolically by the engine ----
+
+// ConcRes is what one call returned; ConcCall one call of a program (kind + two arguments).
+type ConcRes struct {
+	V   int
+	OK  bool
+	Pan bool
+}
+type ConcCall struct {
+	K    int
+	X, Y int
+	L    int // small concrete selector (key length / key index), chosen in [0, ConcSelectors)
+}
+
+// ConcSkipPrecheck: the harness knows the sequential code cannot panic on its programs and skips
+// the sequential pre-run (used where every run forks on clock comparisons).
+var ConcSkipPrecheck = false
+
+// ConcSelectors is the number of values of ConcCall.L (1 = unused); set by the harness.
+var ConcSelectors = 1
+
+// ConcInst wraps one container instance behind its PUBLIC API.
+type ConcInst interface {
+	Apply(c ConcCall) ConcRes // performs the call (labels it with Note, wraps it in Try)
+	Observe(keys []int) []int // observable contents afterwards (drain, or size + lookups of keys)
+}
+
+func ConcResEq(a, b ConcRes) bool { return And(a.V == b.V, a.OK == b.OK, a.Pan == b.Pan) }
+
+// ConcProgram chooses the calls of each thread: shape 0 = 2 threads x 1 call (unordered pair of
+// kinds), 1 = 3 x 1 (unordered triple), 2 = 2 x 2.
+func ConcProgram(shape int, kinds []int) [][]ConcCall {
+	mk := func() ConcCall {
+		c := ConcCall{K: kinds[Choice(len(kinds))], X: Int(), Y: Int()}
+		if ConcSelectors > 1 {
+			c.L = Choice(ConcSelectors)
+		}
+		return c
+	}
+	switch shape {
+	case 0:
+		a, b := mk(), mk()
+		if b.K < a.K {
+			Assume(false)
+		}
+		return [][]ConcCall{{a}, {b}}
+	case 1:
+		a, b, c := mk(), mk(), mk()
+		if b.K < a.K || c.K < b.K {
+			Assume(false)
+		}
+		return [][]ConcCall{{a}, {b}, {c}}
+	}
+	return [][]ConcCall{{mk(), mk()}, {mk(), mk()}}
+}
+
+// ConcKeys lists the keys worth looking up afterwards: the pre-state keys, every call's first
+// argument and one fresh probe.
+func ConcKeys(pre []int, prog [][]ConcCall) []int {
+	keys := append([]int(nil), pre...)
+	for _, cs := range prog {
+		for _, c := range cs {
+			keys = append(keys, c.X)
+		}
+	}
+	return append(keys, Int())
+}
+
+// ConcShape: quick = pairs only; thorough = pairs, triples, 2x2.
+func ConcShape() int { return Choice(Pick(1, 3)) }
+
+// ConcCheck runs prog concurrently on mk() under every schedule and checks: no call panics, no
+// lock is left held, (lin) the results and the observable contents equal those of some sequential
+// run of the same calls on an identical copy, in an order compatible with program order and the
+// real-time order of this schedule; finally follow(q) must find the instance usable.
+// pid is the property id used in the obligation names; share turns the race monitor on.
+func ConcCheck(pid, name string, mk func() ConcInst, prog [][]ConcCall, keys []int, share, lin bool, follow func(q ConcInst) bool) {
+	var flat []ConcCall
+	var spans []CallSpan
+	for t, cs := range prog {
+		for _, c := range cs {
+			flat = append(flat, c)
+			spans = append(spans, CallSpan{Thread: t})
+		}
+	}
+	// Programs on which the SEQUENTIAL code already panics (in some order of the calls) are outside
+	// this check: that is a sequential defect, reported by the property that owns the operation.
+	for _, ord := range Orders(spans) {
+		if ConcSkipPrecheck {
+			break
+		}
+		s := mk()
+		for _, i := range ord {
+			if s.Apply(flat[i]).Pan {
+				return
+			}
+		}
+	}
+	res := make([]ConcRes, len(flat))
+	q := mk()
+	if share {
+		Share(q) // shared instance, lock-discipline (race) monitor on
+	} else {
+		ShareNoRaceCheck(q) // shared instance; races are the other property's business
+	}
+	var fs []func()
+	idx := 0
+	for _, cs := range prog {
+		lo, hi := idx, idx+len(cs)
+		idx = hi
+		fs = append(fs, func() {
+			for i := lo; i < hi; i++ {
+				spans[i].Begin = Stamp()
+				res[i] = q.Apply(flat[i])
+				spans[i].End = Stamp()
+			}
+		})
+	}
+	Par(fs...)
+	if lin {
+		// a panic that the same calls also raise when run one after the other is a sequential
+		// defect (another property's business); only interleaving-induced panics count here
+		ok := false
+		final := q.Observe(keys)
+		for _, ord := range Orders(spans) {
+			s := mk()
+			m := true
+			for _, i := range ord {
+				r := s.Apply(flat[i])
+				m = And(m, ConcResEq(r, res[i]))
+			}
+			m = And(m, SeqEqInt(s.Observe(keys), final))
+			ok = Or(ok, m)
+		}
+		for i := range res {
+			Assert(!res[i].Pan, pid+"/"+name+"/no-panic-under-interleaving")
+		}
+		Assert(ok, pid+"/"+name+"/linearizable")
+		return
+	}
+	for i := range res {
+		Assert(!res[i].Pan, pid+"/"+name+"/no-panic-under-interleaving")
+	}
+	Assert(LocksHeld() == 0, pid+"/"+name+"/no-lock-left-held")
+	Assert(follow(q), pid+"/"+name+"/usable-afterwards")
+}
+
 var stamp int
 
 func Stamp() int { mu.Lock(); defer mu.Unlock(); stamp++; return stamp }
 
-// Par runs the functions concurrently (native fallback: real goroutines, uncontrolled).
-func Par(fs ...func()) {
-	var wg sync.WaitGroup
-	for _, f := range fs {
-		wg.Add(1)
-		go func(f func()) { defer wg.Done(); f() }(f)
+// ---- native scheduler (replay of concurrency counterexamples) ----
+//
+// ZV_SCHED=dfs: Par threads run one at a time under a cooperative scheduler whose decisions (at
+// lock acquisitions, blocking operations and thread exits, through package zzvsync) are searched
+// depth-first by RunSchedules, with the solver's concrete inputs, until the failure named by
+// $ZV_TARGET occurs. Without ZV_SCHED, Par uses free-running goroutines (race-detector replays).
+
+type nthread struct {
+	id      int
+	resume  chan struct{}
+	done    bool
+	waiting func() bool
+	why     string
+}
+
+type schedAbort struct{ why string }
+
+var (
+	schedOn     bool   // set by RunSchedules from $ZV_SCHED
+	schedTarget string // $ZV_TARGET
+	nthreads    []*nthread
+	ncur        *nthread
+	nactive     bool
+	nabort      bool
+	dfsPrefix   []int
+	dfsTrace    [][2]int
+	dfsPos      int
+	otherFails  = map[string]bool{}
+	parIter     int
+)
+
+func dfsChoose(n int) int {
+	if n <= 1 {
+		return 0
 	}
+	c := 0
+	if dfsPos < len(dfsPrefix) {
+		c = dfsPrefix[dfsPos]
+		if c >= n {
+			c = n - 1
+		}
+	}
+	dfsPos++
+	dfsTrace = append(dfsTrace, [2]int{c, n})
+	return c
+}
+
+func (t *nthread) enabled() bool {
+	if t.done {
+		return false
+	}
+	return t.waiting == nil || t.waiting()
+}
+
+func npick(cur *nthread, curRunnable bool) *nthread {
+	var en []*nthread
+	for _, t := range nthreads {
+		if t == cur && !curRunnable {
+			continue
+		}
+		if t.enabled() {
+			en = append(en, t)
+		}
+	}
+	if len(en) == 0 {
+		return nil
+	}
+	return en[dfsChoose(len(en))]
+}
+
+func (t *nthread) park() {
+	<-t.resume
+	if nabort {
+		if t.id == 0 {
+			panic(schedAbort{"abort"})
+		}
+		select {} // abandoned thread of an aborted schedule
+	}
+	ncur = t
+}
+
+// SchedYield is a scheduling point at which the caller stays runnable.
+func SchedYield() {
+	if !nactive {
+		return
+	}
+	me := ncur
+	next := npick(me, true)
+	if next == nil || next == me {
+		return
+	}
+	next.resume <- struct{}{}
+	me.park()
+}
+
+// SchedBlock suspends the caller until pred holds.
+func SchedBlock(why string, pred func() bool) {
+	if pred() {
+		return
+	}
+	if !nactive {
+		schedDeadlock("sequential code blocks forever on " + why)
+	}
+	me := ncur
+	me.waiting, me.why = pred, why
+	next := npick(me, false)
+	if next == nil {
+		schedDeadlock("no runnable thread (blocked on " + why + ")")
+	}
+	next.resume <- struct{}{}
+	me.park()
+	me.waiting, me.why = nil, ""
+}
+
+func schedDeadlock(msg string) {
+	fmt.Println("ZV: deadlock:", msg)
+	if schedTarget == "deadlock" || !schedOn {
+		os.Exit(3)
+	}
+	otherFails["deadlock"] = true
+	abortSchedule()
+}
+
+// abortSchedule abandons the current schedule: the main thread unwinds, the others stay parked.
+func abortSchedule() {
+	nabort = true
+	if !nactive || ncur == nil || ncur.id == 0 {
+		nactive = false
+		panic(schedAbort{"abort"})
+	}
+	nthreads[0].resume <- struct{}{}
+	select {}
+}
+
+func SchedFatal(msg string) {
+	fmt.Println("fatal error:", msg)
+	os.Exit(3)
+}
+
+func parSched(fs []func()) {
+	main := &nthread{id: 0, resume: make(chan struct{}, 1)}
+	nthreads = []*nthread{main}
+	var kids []*nthread
+	for i, f := range fs {
+		k := &nthread{id: i + 1, resume: make(chan struct{}, 1)}
+		nthreads = append(nthreads, k)
+		kids = append(kids, k)
+		go func(k *nthread, f func()) {
+			k.park()
+			f()
+			k.done = true
+			next := npick(k, false)
+			if next == nil {
+				schedDeadlock("all remaining threads blocked")
+			}
+			next.resume <- struct{}{}
+		}(k, f)
+	}
+	nactive, ncur = true, main
+	main.waiting = func() bool {
+		for _, k := range kids {
+			if !k.done {
+				return false
+			}
+		}
+		return true
+	}
+	next := npick(main, false)
+	if next != nil && next != main {
+		next.resume <- struct{}{}
+		main.park()
+	}
+	main.waiting = nil
+	nactive = false
+}
+
+// Par runs the functions concurrently.
+func Par(fs ...func()) {
+	if schedOn {
+		parSched(fs)
+		return
+	}
+	parIter++
+	var wg sync.WaitGroup
+	start := make(chan struct{})
+	for i := range fs {
+		j := i
+		if parIter%2 == 0 {
+			j = len(fs) - 1 - i
+		}
+		wg.Add(1)
+		spin := (parIter / 2 * (i + 1)) % 5
+		go func(f func()) {
+			defer wg.Done()
+			<-start
+			for k := 0; k < spin; k++ {
+				runtime.Gosched() // vary which goroutine gets ahead
+			}
+			f()
+		}(fs[j])
+	}
+	close(start)
 	wg.Wait()
+}
+
+// RunSchedules runs the harness once per schedule (depth-first over the scheduler's decisions)
+// in ZV_SCHED=dfs mode, ZV_LOOP times in free-running mode, once otherwise.
+func RunSchedules(harness func()) {
+	schedOn = os.Getenv("ZV_SCHED") == "dfs"
+	schedTarget = os.Getenv("ZV_TARGET")
+	resetInputs := func() {
+		mu.Lock()
+		ni, ci, stamp = 0, 0, 0
+		mu.Unlock()
+	}
+	if !schedOn {
+		n, _ := strconv.Atoi(os.Getenv("ZV_LOOP"))
+		if n < 1 {
+			n = 1
+		}
+		for i := 0; i < n; i++ {
+			resetInputs()
+			harness()
+		}
+		return
+	}
+	runs := 0
+	for {
+		runs++
+		resetInputs()
+		dfsTrace, dfsPos, nabort, nactive = nil, 0, false, false
+		func() {
+			defer func() {
+				if r := recover(); r != nil {
+					if _, ok := r.(schedAbort); ok {
+						return
+					}
+					panic(r)
+				}
+			}()
+			harness()
+		}()
+		// next prefix
+		i := len(dfsTrace) - 1
+		for i >= 0 && dfsTrace[i][0]+1 >= dfsTrace[i][1] {
+			i--
+		}
+		if i < 0 || runs > 200000 {
+			break
+		}
+		dfsPrefix = dfsPrefix[:0]
+		for j := 0; j < i; j++ {
+			dfsPrefix = append(dfsPrefix, dfsTrace[j][0])
+		}
+		dfsPrefix = append(dfsPrefix, dfsTrace[i][0]+1)
+	}
+	fmt.Printf("ZV: schedules explored natively: %d; other failures seen: %v\n", runs, otherFails)
 }
 
 // ---- Go models of library functions, executed symbolically by the engine in place of the
